@@ -1,4 +1,4 @@
-(* DbValueProofs.v — `dbv_eqb` (DbValue's derived Eq, through the derived Ord) is an equivalence
+(* DbValueEqProofs.v — `dbv_eqb` (DbValue's derived Eq, through the derived Ord) is an equivalence
    relation, and it is Leibniz equality on values whose f64 payloads are 64-bit patterns. *)
 From Agdb Require Import Bytes BytesProofs DbValue.
 From Coq Require Import ZifyBool ZifyNat ZifyN.
